@@ -128,7 +128,9 @@ impl XmlReader {
     }
 
     fn read_xml_internal(file: &FileContent, file_name: &str, files: &Files) -> WriterResult<RustDocument> {
-        if file.processed.load(std::sync::atomic::Ordering::SeqCst) {
+        // mark the file before its imports are followed, so that a file that (transitively) imports
+        // itself is not read again
+        if file.processed.swap(true, std::sync::atomic::Ordering::SeqCst) {
             #[cfg(feature = "verif")]
             crate::verif::skip_processed(file_name);
             let rust_doc = RustDocument::empty();
@@ -150,7 +152,6 @@ impl XmlReader {
             Self::read(child, files, &mut rust_doc)?;
         }
 
-        file.processed.store(true, std::sync::atomic::Ordering::SeqCst);
         #[cfg(feature = "verif")]
         verif_guard.ok(&rust_doc);
 
